@@ -69,3 +69,56 @@ class StepMonitor:
             if self.budget is not None and self.steps > self.budget:
                 self.budget = None
                 raise BudgetExceeded('%s' % code.co_qualname)
+
+
+class HangGuard(StepMonitor):
+    """Process-wide watchdog in logical steps.  Armed once per case by the worker; every progress
+    point of the harness (a public call returned) resets the segment counter.  A segment that
+    executes more than SEGMENT_BUDGET function entries + loop back-edges inside pycdlib is
+    reported as non-termination (the deciding quantity is logical steps, not wall time)."""
+    SEGMENT_BUDGET = 20_000_000
+    TOOL = 4
+
+    def __init__(self):
+        super().__init__()
+        self.max_segment = 0
+        self.total = 0
+
+    def arm(self):
+        mon = sys.monitoring
+        self.steps = 0
+        self.max_segment = 0
+        self.total = 0
+        self.budget = self.SEGMENT_BUDGET
+        self.track = False
+        try:
+            mon.use_tool_id(self.TOOL, 'verif-hang')
+        except ValueError:
+            pass
+        ev = mon.events
+        mon.register_callback(self.TOOL, ev.PY_START, self._start)
+        mon.register_callback(self.TOOL, ev.PY_RESUME, self._start)
+        mon.register_callback(self.TOOL, ev.JUMP, self._jump)
+        mon.set_events(self.TOOL, ev.PY_START | ev.PY_RESUME | ev.JUMP)
+        self.active = True
+
+    def disarm(self):
+        if self.active:
+            sys.monitoring.set_events(self.TOOL, 0)
+            self.active = False
+        self.progress()
+
+    def progress(self):
+        if self.steps > self.max_segment:
+            self.max_segment = self.steps
+        self.total += self.steps
+        self.steps = 0
+        if self.active:
+            self.budget = self.SEGMENT_BUDGET
+
+
+GUARD = HangGuard()
+
+
+def progress():
+    GUARD.progress()
